@@ -4,6 +4,8 @@ package main
 
 import (
 	"fmt"
+	"strconv"
+	"strings"
 
 	"github.com/tdakkota/docker-logql/internal/logql/logqlengine"
 	"github.com/tdakkota/docker-logql/internal/zzverif/mockq"
@@ -17,6 +19,28 @@ type c07Input struct {
 	// JSON: the stage list is preceded by `| json` and runs over the JSON lines only: the labels a, b, c then carry
 	// numbers, booleans and strings as the parser produced them, not plain string attributes.
 	JSON bool `json:"json,omitempty"`
+	// Raw: every string of the query text is written as a raw string (between backquotes, every byte standing for
+	// itself: line breaks, carriage returns, tabs) where its content allows it.
+	Raw bool `json:"raw,omitempty"`
+}
+
+// rawQuoted rewrites the interpreted string literals of a query text into raw ones.
+func rawQuoted(text string) string {
+	var sb strings.Builder
+	for i := 0; i < len(text); {
+		if text[i] == '"' {
+			if q, err := strconv.QuotedPrefix(text[i:]); err == nil {
+				if v, err := strconv.Unquote(q); err == nil && !strings.Contains(v, "`") {
+					sb.WriteString("`" + v + "`")
+					i += len(q)
+					continue
+				}
+			}
+		}
+		sb.WriteByte(text[i])
+		i++
+	}
+	return sb.String()
 }
 
 // c07JSONData: labels a, b, c as JSON values of several types (values spelled so that every rendering agrees).
@@ -30,6 +54,9 @@ var c07JSONData = func() []mockq.Rec {
 
 func tl(s string) refmodel.TPart { return refmodel.TPart{Lit: s} }
 func tv(l string) refmodel.TPart { return refmodel.TPart{Label: l} }
+func al(right bool, n int, l string) refmodel.TPart {
+	return refmodel.TPart{Align: &refmodel.AlignPart{Right: right, N: n, Label: l}}
+}
 
 // c07StageInfo: a stage plus what it reads/writes (to keep renames and templates of one stage disjoint, §4).
 type c07StageInfo struct {
@@ -92,6 +119,20 @@ func c07Stages() []c07StageInfo {
 		{s: &refmodel.Drop{Items: []refmodel.DKItem{dm("a", "=", "1"), dm("b", "=", "3"), dm("a", "=~", "1")}}},
 		{s: &refmodel.Drop{Items: []refmodel.DKItem{dm("a", "=", "2")}}},
 		{s: &refmodel.Decolorize{}},
+		// a template over the old value of the label it overwrites (every record on its own: once)
+		{s: lfmt(tpl("a", tl("p-"), tv("a")))},
+		{s: lfmt(tpl("c", tl("<"), tv("c"), tl(">")), tpl("d", tv("b")))},
+		// literal text with a carriage return, a line break and a tab in it (in a raw string they stand for themselves)
+		{s: &refmodel.LineFormat{T: refmodel.Template{tl("a\r\nb\t"), tv("a"), tl("\r")}}},
+		{s: lfmt(tpl("d", tl("x\r"), tv("c"), tl("\n")))},
+		{s: &refmodel.Drop{Items: []refmodel.DKItem{dm("c", "=", "x\r")}}},
+		// widths in characters, over values of several bytes per character: narrower than the value, as wide as it is in
+		// characters, as wide as it is in bytes, wider
+		{s: &refmodel.LineFormat{T: refmodel.Template{al(false, 3, "u"), tl("|"), al(true, 3, "u"), tl("|"), al(false, 4, "u"), tl("|"), al(true, 8, "u"), tl("|"), al(false, 10, "u"), tl("|"), al(true, 10, "u"), tl("|"), al(false, 0, "u"), tl("|"), al(false, 2, "a")}}},
+		{s: lfmt(tpl("d", al(false, 8, "u"), tl("|")), tpl("e", al(true, 7, "u"), tl("|"), al(true, 5, "c")))},
+		// an expression that carries its own anchors and a top-level alternation still has to match the whole value
+		{s: &refmodel.Drop{Items: []refmodel.DKItem{dm("a", "=~", "^1|2$")}}},
+		{s: &refmodel.Keep{Items: []refmodel.DKItem{dm("a", "=~", "^1|2$"), dm("u", "!~", "^х|x$")}}, isKeep: true},
 	}
 }
 
@@ -125,6 +166,11 @@ func c07Records() []mockq.Rec {
 	}
 	ts++
 	out = append(out, mockq.Rec{TS: ts * sec, Line: "l", Labels: wide})
+	// values of several bytes per character; a value that begins like one alternative of an anchored expression
+	for _, ls := range [][]mockq.KV{{{K: "u", V: "хлеб"}, {K: "a", V: "12"}}, {{K: "u", V: "é世x"}, {K: "a", V: "21"}, {K: "c", V: "x"}}, {{K: "u", V: "xх"}, {K: "a", V: "2"}}} {
+		ts++
+		out = append(out, mockq.Rec{TS: ts * sec, Line: "l", Labels: ls})
+	}
 	return out
 }
 
@@ -151,6 +197,9 @@ func c07Check(r *vkit.Run, in c07Input) bool {
 		}
 	}
 	in.Text = q.Text()
+	if in.Raw {
+		in.Text = rawQuoted(in.Text)
+	}
 	res := evalLog(data, logqlengine.QuerierCapabilities{}, in.Text, -1)
 	r.Eval()
 	r.Step(len(data) * len(in.Stages))
@@ -262,6 +311,20 @@ func c07Run(r *vkit.Run) {
 	}
 	for a := range c07S {
 		visit([]int{a})
+	}
+	// every stage, and every pair, once more with its strings written as raw strings
+	for a := range c07S {
+		for b := -1; b < len(c07S); b++ {
+			idx++
+			if !r.Mine(idx) || r.Stop() {
+				continue
+			}
+			st := []int{a}
+			if b >= 0 {
+				st = append(st, b)
+			}
+			c07Check(r, c07Input{Stages: st, Raw: true})
+		}
 	}
 	for a := range c07S {
 		for b := range c07S {
